@@ -121,6 +121,7 @@ PAGES = {
     "luaStringMeta": ("expand", "{{#invoke:S|smeta}}{{#invoke:S|smeta}}", {}),
     "luaRequired": ("expand", "{{#invoke:S|required}}{{#invoke:S|required}}", {}),
     "luaRetained": ("expand", "{{#invoke:S|retained}}{{#invoke:S|retained}}", {}),
+    "luaHandedOut": ("expand", "{{#invoke:PObj|objects}}{{#invoke:PObj|objects}}", {}),     # (round 9) Context!lobjects
     "luaLoadData": ("expand", "{{#invoke:S|loaddata}}{{#invoke:S|loaddata}}", {}),
     "luaLoadJson": ("expand", "{{#invoke:S|loadjson}}{{#invoke:S|loadjson}}", {}),
     "luaStripMarker": ("expand", "{{#invoke:S|strip}}", {}),
@@ -187,6 +188,7 @@ def populate(path):
     ctx.add_page("Template:A", 10, body="{{B}}")
     ctx.add_page("Template:B", 10, body="[{{A}}]")
     luastub.add_module(ctx, "Slow", MODULE_SLOW)
+    luastub.add_module(ctx, "PObj", PAGE_OBJ_MODULE)
     ctx.add_page("Template:Pre", 10, body="[pre {{T1|p}}]", need_pre_expand=True)
     ctx.db_conn.commit()
     ctx.db_conn.close()
@@ -337,6 +339,65 @@ function p.run(frame)
 end
 return p
 """
+# (round 9) objects handed out by the constructors of the retained libraries (ContextInvoke!ObjKinds): ow_<c> obtains an
+# object from constructor c, reports the state of its writable fields and writes them; or_<c> obtains and reports.
+# Fields: `fragment` (documented as writable for title objects) where the object has one, and a field of the module's own.
+OBJ_TARGET = "Obj target"
+OBJ_CTORS = {
+    "tnew": 'mw.title.new(T)', "tmake": 'mw.title.makeTitle(0, T)', "tbase": 'mw.title.new(T .. "/sub").basePageTitle',
+    "tcur": 'mw.title.getCurrentTitle()', "tsub": 'mw.title.new(T):subPageTitle("sub")',
+    "lnew": 'mw.language.new("en")', "lcont": 'mw.language.getContentLanguage()',
+    "html": 'mw.html.create("div")', "msg": 'mw.message.new("obj-msg")',
+}
+INV_MODULES["Obj"] = (
+    'local p = {}\nlocal T = "%s"\nlocal ctors = {\n' % OBJ_TARGET
+    + "".join('  %s = function() return %s end,\n' % kv for kv in sorted(OBJ_CTORS.items()))
+    + r"""}
+local function state(o)
+  if type(o) ~= "table" then return "noobject" end
+  local own, frag = o.leaked, o.fragment
+  if own == nil and (frag == nil or frag == "") then return "init" end
+  if own == "set" or frag == "set" then return "set" end
+  return "other"
+end
+for c, make in pairs(ctors) do
+  p["or_" .. c] = function(frame) return "o=" .. state(make()) end
+  p["ow_" .. c] = function(frame)
+    local o = make()
+    local before = state(o)
+    if type(o) == "table" then
+      if o.fragment ~= nil then o.fragment = "set" end
+      o.leaked = "set"
+    end
+    return "o=" .. before
+  end
+end
+return p
+""")
+# page level (Context.tla, cell lobjects): ONE page kind obtains an object from every constructor (but the content-language
+# one, see OBJ_DEV), reports its writable fields as it was handed out and then writes them
+PAGE_OBJ_MODULE = (
+    'local p = {}\nlocal T = "%s"\nlocal ctors = {\n' % OBJ_TARGET
+    + "".join('  {"%s", function() return %s end},\n' % kv for kv in sorted(OBJ_CTORS.items()) if kv[0] != "lcont")
+    + r"""}
+function p.objects(frame)
+  local out = {}
+  for _, c in ipairs(ctors) do
+    local o = c[2]()
+    out[#out + 1] = c[1] .. "=" .. tostring(o.leaked) .. "/" .. tostring(o.fragment)
+    if o.fragment ~= nil then o.fragment = "set" end
+    o.leaked = "set"
+  end
+  return "o:" .. table.concat(out, ",") .. ";"
+end
+return p
+""")
+OBJ_KINDS = {pre + c for c in OBJ_CTORS for pre in ("ow_", "or_")}
+OBJ_DEV = "ContentLanguageObjectShared"
+# kinds after which the context hands the written object out again ON THE UNCHANGED TREE (as-is deviation OBJ_DEV): a history
+# with one of them gets a context of its own (the engine runs many histories on one long-lived context, one page each)
+OBJ_CONTAMINATING = {"ow_lcont"}
+OBJ_WRITERS = {"ow_" + c for c in OBJ_CTORS}
 INV_MODULES["Nest"] = NEST_DRIVER.replace("@W@", "own").replace("@T@", "InvA")
 INV_MODULES["Nest2"] = NEST_DRIVER.replace("@W@", "sub").replace("@T@", "InvB")     # (InvA inside InvA would be a template loop)
 NEST_MAXARGS = 4            # Template:InvA hands on four arguments
@@ -350,12 +411,14 @@ INV_SIMPLE = {
     # (round 8) the time limit as an option of the call
     "lim_peek": ("Ctr", "peek"), "slow": ("F", "slow"), "lim_slow": ("F", "slow"),
 }
+INV_SIMPLE.update({k: ("Obj", k) for k in OBJ_KINDS})
 INV_LIMITED = {"timeout", "lim_peek", "lim_slow"}       # ContextInvoke!Limited: the call of these kinds is given timeout=INV_TIMEOUT
 INV_SLOW = {"timeout", "slow", "lim_slow"}              # wait for the clock of the sandbox (seconds)
 # kinds that only make sense with one expand() per invocation (the option set belongs to the CALL)
 INV_CALLS_ONLY = {"page", "lim_peek", "slow", "lim_slow"}
 INV_PREFIX = {"lim_peek": "c=", "slow": "w=", "lim_slow": "w=", "bump": "c=", "bump2": "c=", "peek": "c=", "reqbump": "r=", "gset": "g=", "gget": "g=", "rget": "x=", "sset": "s=", "sget": "s=",
               "ldset": "d=", "ldget": "d=", "ljset": "d=", "ljget": "d="}
+INV_PREFIX.update({k: "o=" for k in OBJ_KINDS})
 # kinds that occur only as nested steps of a program
 NEST_ONLY = {"tset": ("Tab", "tset"), "tget": ("Tab", "tget"), "view": ("V", "view")}
 NEST_PREFIX = dict(INV_PREFIX, tset="t=", tget="t=", view="v=")
@@ -628,7 +691,9 @@ def _inv_chunks(chunks):
 
 def inv_pmap(items, chunk):
     """pmap(inv_worker) in which every history that waits for the clock is a chunk of its own (they spread over the workers)."""
-    slow = [i for i, it in enumerate(items) if any(isinstance(k, str) and k in INV_SLOW for k in it[2])]
+    # (a history with a writer of a handed-out object gets a context of its own: what the model with the named deviations
+    # predicts for the HISTORY can then be compared with the whole run; later pages are part of the histories: kind "page")
+    slow = [i for i, it in enumerate(items) if any(isinstance(k, str) and (k in INV_SLOW or k in OBJ_WRITERS) for k in it[2])]
     rest = [i for i in range(len(items)) if i not in set(slow)]
     groups = [[i] for i in slow] + [rest[j:j + chunk] for j in range(0, len(rest), chunk)]
     res = pmap(_inv_chunks, [[items[i] for i in g] for g in groups], chunk=1)
@@ -697,6 +762,17 @@ INV_WHY_KEPT = ("; the as-coded model with the deviation EnvKeptOnAbort (the env
                 "_lua_reset_env) predicts exactly the observed outputs")
 
 
+INV_WHY_OBJMEMO = ("; the model with the deviation HandedOutObjectsMemoised (a constructor of a retained library keeps the objects it "
+                   "has built in the library - which no reset and no start_page reaches - and hands the same object out again for the "
+                   "same request) predicts exactly the observed outputs")
+
+
+def obj_words(kind):
+    return ("the object handed out by %s (T = %r) carries field values (fragment / a field of the module's own) that ANOTHER invocation "
+            "wrote into the object IT was handed: objects handed out by library constructors must carry nothing an earlier invocation "
+            "wrote" % (OBJ_CTORS[kind[3:]], OBJ_TARGET))
+
+
 INV_WHY_LIMKEPT = ("; the model with the deviation TimeLimitKept (the time limit given to ONE call expand(..., timeout=t) stays in the Lua "
                    "runtime and a later call that gives no limit runs under it instead of the default) predicts exactly the observed "
                    "outputs - the option set of one call must not affect later calls")
@@ -719,11 +795,12 @@ def invocation_histories(o, tier, gen, demo, dld, demos_nest):
     if len(ncases) < 500:
         raise common.TLCError("Gen_ContextInvoke produced only %d nest cases" % len(ncases))
     for name, r in demos_nest.items():
-        o.extra["demo_%s_violates_%s" % (name, "MeetsDemand_on_invocation_histories" if name == "timelimit" else "CaseMeetsDemand")] = bool(r.invariant_violated)
+        o.extra["demo_%s_violates_%s" % (name, "CaseMeetsDemand" if name.startswith("nest") else "MeetsDemand_on_invocation_histories")] = bool(r.invariant_violated)
         if not r.invariant_violated:
             raise common.TLCError("Demo_ContextInvoke_%s lost its counterexample" % name)
     rng = random.Random(common.seed() * 67 + 909)
-    vkinds = sorted(set(INV_SIMPLE) - INV_SLOW - {"lim_peek"}) + ["n_nomod", "n_nilmod", "n_synmod", "n_badutf", "n_nofn", "n_err", "n_loaderr",
+    # (OBJ_CONTAMINATING: as-is they change what LATER histories on the same context see; covered by the G histories)
+    vkinds = sorted(set(INV_SIMPLE) - INV_SLOW - {"lim_peek"} - OBJ_CONTAMINATING) + ["n_nomod", "n_nilmod", "n_synmod", "n_badutf", "n_nofn", "n_err", "n_loaderr",
                                                       "n_bump", "t_nomod", "t_badutf", "t_bump", "page"]   # (the loadData kinds are in INV_SIMPLE)
     vh = [[rng.choice(vkinds) for _ in range(rng.randint(5, 12))] for _ in range(400 if thorough else 60)]
     # (round 8) random histories in which some calls are given a time limit (quick invocations only: nothing waits)
@@ -800,7 +877,27 @@ def invocation_histories(o, tier, gen, demo, dld, demos_nest):
                          "table is handed out writable and the cache is only cleared by start_page)",
                    ["LoadDataTableMutableWithinPage"], cls="invocation-history:loadData")
 
-    def judge(origin, hist, rendering, i, got, exp_i, again, kept_explains, limkept_explains=False):
+    obj_dev_listed = any(e.get("property") == PID and e.get("deviation") == OBJ_DEV for e in common.load_known())
+    pending_obj = {"cases": 0}
+
+    def known_obj(origin, hist, rendering, i, got, exp_i):
+        """Invocation #i shows what the as-is model with ContentLanguageObjectShared predicts (and the ideal does not)."""
+        case = {"origin": origin, "rendering": rendering, "history": hist[: i + 1], "invocation": inv_text(hist[i], rendering),
+                "got": got[i][:200], "model": exp_i[:200], "all_outputs": [g[:80] for g in got]}
+        why = (f"invocation #{i + 1} ({hist[i]}) gets from mw.language.getContentLanguage() an object in state {got[i][:80]!r} where the "
+               f"specification demands {exp_i!r}: the fields were written by an earlier invocation (same page or an earlier page) - the "
+               "library hands out ONE object, a local of the retained module mw_language, for the whole life of the Lua runtime")
+        if obj_dev_listed:
+            o.classify(case, why, [OBJ_DEV], cls="invocation-history:" + OBJ_DEV)
+        else:       # candidate finding, not (yet) listed: counted in the evidence, see notes/C09.md
+            pending_obj["cases"] += 1
+            if "witness" not in pending_obj or len(case["history"]) < len(pending_obj["witness"]["history"]):
+                pending_obj["witness"] = dict(case, why=why)
+
+    def known_asis(origin, hist, rendering, i, got, exp_i):
+        (known_obj if hist[i] in OBJ_KINDS else known_loaddata)(origin, hist, rendering, i, got, exp_i)
+
+    def judge(origin, hist, rendering, i, got, exp_i, again, kept_explains, limkept_explains=False, objmemo_explains=False):
         kind = hist[i]
         case = {"origin": origin, "rendering": rendering, "history": hist[: i + 1], "invocation": inv_text(kind, rendering),
                 "got": got[i][:200], "model": exp_i[:200], "alone_on_a_fresh_page": str(solo.get((kind, rendering)))[:200],
@@ -824,7 +921,12 @@ def invocation_histories(o, tier, gen, demo, dld, demos_nest):
             why += INV_WHY_KEPT
         if limkept_explains:
             why += INV_WHY_LIMKEPT
-        o.violation(case, why, cls="invocation-history:" + ("EnvKeptOnAbort" if kept_explains else "TimeLimitKept" if limkept_explains else kind))
+        if isinstance(kind, str) and kind in OBJ_KINDS:
+            why += "; " + obj_words(kind)
+        if objmemo_explains:
+            why += INV_WHY_OBJMEMO
+        o.violation(case, why, cls="invocation-history:" + ("EnvKeptOnAbort" if kept_explains else "TimeLimitKept" if limkept_explains else
+                                                             "HandedOutObjectsMemoised" if objmemo_explains else kind))
 
     for (_, hid, hist, rendering, exp), (got, again) in zip(items, results):
         o.evaluations += len(hist)
@@ -838,11 +940,13 @@ def invocation_histories(o, tier, gen, demo, dld, demos_nest):
         for i in range(len(hist)):
             if got[i] == exp[i]:
                 continue
-            if got[i] == asis[i]:       # explained by the as-is lifetime of the loadData tables (named deviation)
-                known_loaddata("I/G", hist, rendering, i, got, exp[i])
+            if got[i] == asis[i]:       # explained by the as-is lifetime of the loadData tables / of the content-language object (named deviations)
+                known_asis("I/G", hist, rendering, i, got, exp[i])
                 continue
             limkept = [inv_render(x) if x["k"] != "page" else "" for x in c.get("limkept", [])]
-            judge("I/G", hist, rendering, i, got, exp[i], again, bool(kept) and got == kept, bool(limkept) and got == limkept)
+            objmemo = [inv_render(x) if x["k"] != "page" else "" for x in c.get("objmemo", [])]
+            judge("I/G", hist, rendering, i, got, exp[i], again, bool(kept) and got == kept, bool(limkept) and got == limkept,
+                  bool(objmemo) and got == objmemo)
             break
 
     # ---- nested programs ----
@@ -981,7 +1085,7 @@ def invocation_histories(o, tier, gen, demo, dld, demos_nest):
                 (d2 / "base").mkdir()
                 inv_populate(d2 / "base" / "pages.db")
                 (got, _), = inv_worker([(d2 / "base", "r", h, "calls", None)])
-            vd = dict(vd, bad=[i + 1 for i in range(len(h)) if inv_abstract(h[i], got[i]) != vd["exp"][i]], keptExplains=False,
+            vd = dict(vd, bad=[i + 1 for i in range(len(h)) if inv_abstract(h[i], got[i]) != vd["exp"][i]], keptExplains=False, objMemoExplains=False,
                       limKeptExplains=[inv_abstract(k, t) for k, t in zip(h, got)] == vd.get("limkept"))
             if not vd["bad"]:
                 timing["not_confirmed"] += 1
@@ -990,10 +1094,21 @@ def invocation_histories(o, tier, gen, demo, dld, demos_nest):
             x, a = vd["exp"][i], vd["asis"][i]
             exp_i = inv_render(x) if x["k"] != "page" else ""
             if a != x and inv_abstract(h[i], got[i]) == a:
-                known_loaddata("I/V", h, "calls", i, got, exp_i)
+                known_asis("I/V", h, "calls", i, got, exp_i)
                 continue
-            judge("I/V", h, "calls", i, got, exp_i, None, bool(vd["keptExplains"]), bool(vd.get("limKeptExplains")))
+            judge("I/V", h, "calls", i, got, exp_i, None, bool(vd["keptExplains"]), bool(vd.get("limKeptExplains")), bool(vd.get("objMemoExplains")))
             break
+    o.extra["handed_out_objects"] = {"constructors": OBJ_CTORS, "G_histories": sum(1 for c in cases if any(k in OBJ_KINDS for k in c["hist"])),
+                                     "histories_where_as_is_differs": sum(1 for c in cases if c["asis"] and any(k in OBJ_KINDS for k in c["hist"])),
+                                     "histories_where_HandedOutObjectsMemoised_differs": sum(1 for c in cases if c.get("objmemo"))}
+    if not obj_dev_listed:
+        o.extra["candidate_finding_" + OBJ_DEV] = dict(pending_obj, deviation=OBJ_DEV, status="not listed in known_findings.json: the "
+                                                       "invocations the as-is model explains by this deviation are counted here and not reported")
+        if pending_obj["cases"]:
+            w = pending_obj["witness"]
+            print(f"CANDIDATE-FINDING: property={PID} {OBJ_DEV} (not listed in known_findings.json, exit code unaffected): "
+                  f"{pending_obj['cases']} invocation(s) show exactly what the as-is model predicts, e.g. history {w['history']} -> "
+                  f"{w['all_outputs']} (demanded {w['model']} for the last one)")
     o.extra["invocation_histories"] = {"G_histories": len(cases), "G_runs": len(items), "renderings": list(INV_RENDERINGS),
                                        "V_histories": len(vh), "kinds": len(kinds) + 1,
                                        "histories_where_EnvKeptOnAbort_differs": sum(1 for c in cases if c["kept"])}
@@ -1016,11 +1131,11 @@ def run(tier: str) -> int:
     f_demo = bg.submit(tlc, "Gen_ContextInvoke", "Demo_ContextInvoke_envkept.cfg", workers=1, check=False)
     f_dld = bg.submit(tlc, "Gen_ContextInvoke", "Demo_ContextInvoke_loaddata.cfg", workers=1, check=False)
     f_dn = {n: bg.submit(tlc, "Gen_ContextInvoke", "Demo_ContextInvoke_%s.cfg" % n, workers=1, check=False)
-            for n in ("nestshared", "nestmodules", "timelimit")}
+            for n in ("nestshared", "nestmodules", "timelimit", "objmemo", "contlang")}
     # (round 8) the model checking of the page-level model and its Demo configs run in the background as well
     f_mc = bg.submit(tlc, "Gen_Context", "MC_Context_ideal.cfg", workers=8, timeout=1800)
     f_mco = bg.submit(tlc, "Gen_Context", "MC_Context_options.cfg", workers=2, timeout=1800)
-    f_dmo = {n: bg.submit(tlc, "Gen_Context", "Demo_Context_%s.cfg" % n, workers=1, check=False) for n in ("asbuilt", "timelimit", "calloptions")}
+    f_dmo = {n: bg.submit(tlc, "Gen_Context", "Demo_Context_%s.cfg" % n, workers=1, check=False) for n in ("asbuilt", "timelimit", "calloptions", "objmemo")}
     t_page = [time.time()]
     r = tlc("Gen_Context", "Gen_Context_known_3.cfg" if thorough else "Gen_Context_known_2.cfg", workers=1, timeout=3000)
     t_page.append(time.time())
@@ -1096,6 +1211,16 @@ def run(tier: str) -> int:
                 explained = sorted({m[c] for c in cells if c in m})
             why = f"page kind {kind!r} gives a different result after {hist[:i]!r} than on a fresh context"
             kept = sorted(optkept[i]) if optkept is not None and not explained else []
+            if "lobjects" in kept:
+                # the model in which the constructors hand out memoised objects says which earlier page wrote into them
+                kept.remove("lobjects")
+                js = [j for j in range(i) if hist[j] == "luaHandedOut"]
+                why += ("; the page obtains objects from " + ", ".join(v for c, v in sorted(OBJ_CTORS.items()) if c != "lcont") + " (T = %r), reports "
+                        "their writable fields (a field of the module's own / fragment) and then writes them; the model with the deviation "
+                        "HandedOutObjectsMemoised (a constructor of a retained library hands out the object it built for an earlier request again) "
+                        "says this page can meet what page #%d wrote into ITS objects - objects handed out by library constructors must carry "
+                        "nothing an earlier invocation / page wrote" % (OBJ_TARGET, js[-1] + 1))
+                case["cells_possibly_met"] = ["lobjects"]
             if kept:
                 # the model in which options of a call stay in force (TimeLimitKept / CallOptionsKept) says which
                 # option of which earlier call this page can see
